@@ -363,6 +363,15 @@ package httpserver
 //@   modifies ghost:blen
 //@   ensures [conn_or_error] (result1 == nil) == (result0 != nil)
 
+//@ unit logger_should_log frames=on props=C20 filter=`httpserver\.Logger\)\.ShouldLog$`
+//@ // "every request in the scope of a log directive is logged, except under the `except` paths": a request is left out of
+//@ // the log exactly when its path, as Path.Matches compares it (cleaned, case rules of the server), falls under one of them
+//@ func (Path).Matches
+//@   pure
+//@ func (Logger).ShouldLog
+//@   ensures [logged_unless_under_an_except_path] result == forall(k, 0, len(l.Exceptions), !Path(path).Matches(l.Exceptions[k]))
+//@   loop 1 invariant 0 <= #i && #i <= len(l.Exceptions) && forall(k, 0, #i, !Path(path).Matches(l.Exceptions[k]))
+
 //@ unit split_host_path frames=on props=C01 filter=`vhostTrie\)\.splitHostPath$`
 //@ // "host matching ignores letter case and port": the key both Insert and Match look up is the lower-cased text before the
 //@ // first slash, with the port removed exactly when net.SplitHostPort accepts it as host:port (hostOf/hasPort below ARE
